@@ -1689,7 +1689,7 @@ esl_sq_CountResidues(const ESL_SQ *sq, int start, int L, float *f)
   int i;
 
   if (sq->seq != NULL) {   /* text */
-    if (start<0 || start+L>sq->n)
+    if (start<0 || (int64_t) start + L > sq->n)   /* 64-bit sum: start+L overflows an int for start, L near INT_MAX */
       return eslERANGE; //range out of sequence bounds
 
     for (i=start ; i < start+L; i++) {
@@ -1697,7 +1697,7 @@ esl_sq_CountResidues(const ESL_SQ *sq, int start, int L, float *f)
         esl_abc_FCount(sq->abc, f, sq->abc->inmap[(int) sq->seq[i]], 1.);
     }
   } else  { /* digital sequence; 0 is a sentinel       */
-    if (start<1 || start+L>sq->n+1)
+    if (start<1 || (int64_t) start + L > sq->n+1)
       return eslERANGE; //range out of sequence bounds
 
     for (i=start ; i < start+L; i++) {
